@@ -151,7 +151,7 @@ TEMPLATE_CONFIGS = {
     # ... and one template in each era of the two-era calendars (the CE side is covered by the defaults and cal=...)
     "date": (("tmpl=2024-02-29", ("ISO", 2024, 2, 29)), ("tmpl=1999-12-31", ("ISO", 1999, 12, 31)),
              ("tmpl=-0099-01-01 (BCE)", ("ISO", -99, 1, 1)), ("tmpl=Gregorian -0099-01-01 (BCE)", ("Gregorian", -99, 1, 1)),
-             ("tmpl=Julian -0043-03-15 (BCE)", ("Julian", -43, 3, 15)), ("tmpl=Julian 1600-02-29 (CE)", ("Julian", 1600, 2, 29))),
+             ("tmpl=Julian -0043-03-15 (BCE)", ("Julian", -43, 3, 15))),
     "datetime": (("tmpl=2024-02-29T23:59:59.5", ("ISO", 2024, 2, 29, 23, 59, 59, 500_000_000)),
                  ("tmpl=-0099-01-01T00:00 (BCE)", ("ISO", -99, 1, 1, 0, 0, 0, 0)),
                  ("tmpl=Julian -0043-03-15T12:00 (BCE)", ("Julian", -43, 3, 15, 12, 0, 0, 0))),
